@@ -39,6 +39,7 @@ def cases(tier, seed):
     out += [{"sub": "eq", "i": i} for i in range(16 if tier == "quick" else 400)]
     out += [{"sub": "clifford", "kmax": 12 if tier == "quick" else 64}]
     out += [{"sub": "reindex", "i": i} for i in range(64 if tier == "quick" else 800)]
+    out += [{"sub": "gaptrim", "i": i} for i in range(96 if tier == "quick" else 2000)]
     return out
 
 
@@ -252,6 +253,72 @@ def run_reindex(case, ctx):
     ctx.nontrivial(("reindex", gates, new))
 
 
+def run_gaptrim(case, ctx):
+    """trim_qubits / split / stack on circuits whose used qubits are sparse and large (relabelling must be by rank)."""
+    from tangelo.linq import stack
+    rng, pr, s = case_rng(ctx.seed, "C09", "gaptrim", case["i"])
+    pool = list(range(0, 6)) + [7, 8, 9, 10, 12, 16, 17, 24, 31, 32, 33, 40, 64, 65]
+    k = pr.randint(2, 5)
+    old = sorted(pr.sample(pool, k))
+    gates_c = gen.random_gates(pr, k, pr.randint(2, 9), max_controls=2, hostile=0.2)
+    gates = [(nm, [old[q] for q in tg], None if ct is None else [old[q] for q in ct], par) for nm, tg, ct, par in gates_c]
+    used = sorted({q for nm, tg, ct, par in gates for q in list(tg) + list(ct or [])})
+    if not used:
+        return
+    rank = {q: r for r, q in enumerate(used)}
+    rel = [(nm, [rank[q] for q in tg], None if ct is None else [rank[q] for q in ct], par) for nm, tg, ct, par in gates]
+    nu = len(used)
+    c = gen.to_circuit(gates)
+    before = snap(c)
+    ctx.nontrivial(("gaptrim", gates))
+    wit = {"gates": gates, "used": used}
+    c3 = c.copy()
+    c3.trim_qubits()
+    ctx.check("trim_qubits", c3.width == nu and refsim.dist(U(c3, nu), U(rel, nu)) < TOL,
+              "trim_qubits() does not send the i-th used qubit (ascending) to i", lambda: dict(wit, result=gen.from_circuit(c3)))
+    # split with trimming: every part is the restriction of the circuit to one entangled set, relabelled by rank inside the set
+    parts = c.split()
+    ents = [sorted(e) for e in c.get_entangled_indices()]
+    ok = len(parts) == len(ents)
+    if ok:
+        expect = []
+        for e in ents:
+            rk = {q: r for r, q in enumerate(e)}
+            sub = [(nm, [rk[q] for q in tg], None if ct is None else [rk[q] for q in ct], par) for nm, tg, ct, par in gates
+                   if set(list(tg) + list(ct or [])) <= set(e)]
+            expect.append((len(e), U(sub, len(e))))
+        got = [(p_.width, U(p_, p_.width)) for p_ in parts]
+        # parts may come in any order: match greedily
+        rem = list(expect)
+        for wd, ug in got:
+            hit = next((j for j, (we, ue) in enumerate(rem) if we == wd and refsim.dist(ug, ue) < TOL), None)
+            if hit is None:
+                ok = False
+                break
+            rem.pop(hit)
+    ctx.check("split_stack", ok, "split(): a part is not the circuit restricted to one entangled set with qubits relabelled by rank",
+              lambda: dict(wit, parts=[gen.from_circuit(p_) for p_ in parts], entangled=ents))
+    # stack with another sparse circuit: tensor product of the two rank-relabelled circuits
+    k2 = pr.randint(1, 6 - nu) if nu < 6 else 0
+    if k2:
+        old2 = sorted(pr.sample(pool, k2))
+        g2c = gen.random_gates(pr, k2, pr.randint(1, 5), max_controls=1, hostile=0.2)
+        g2 = [(nm, [old2[q] for q in tg], None if ct is None else [old2[q] for q in ct], par) for nm, tg, ct, par in g2c]
+        used2 = sorted({q for nm, tg, ct, par in g2 for q in list(tg) + list(ct or [])})
+        if used2:
+            d = gen.to_circuit(g2)
+            dsnap = snap(d)
+            sd = stack(c, d)
+            r2 = {q: nu + r for r, q in enumerate(used2)}
+            rel2 = rel + [(nm, [r2[q] for q in tg], None if ct is None else [r2[q] for q in ct], par) for nm, tg, ct, par in g2]
+            tot = nu + len(used2)
+            ctx.check("split_stack", sd.width == tot and refsim.dist(U(sd, tot), U(rel2, tot)) < TOL,
+                      "stack(c1, c2) is not the tensor product of the rank-relabelled circuits",
+                      lambda: dict(wit, other=g2, stacked=gen.from_circuit(sd)))
+            ctx.check("input_unchanged", snap(d) == dsnap, "stack changed an operand", lambda: dict(wit, other=g2))
+    ctx.check("input_unchanged", snap(c) == before, "copy().trim_qubits() / split / stack changed the source circuit", wit)
+
+
 def run_eq(case, ctx):
     """Gate.__eq__ => same operation up to a global phase (checked on the enlarged register)."""
     rng, pr, s = case_rng(ctx.seed, "C09", "eq", case["i"])
@@ -323,4 +390,4 @@ def run_clifford(case, ctx):
 
 
 def run_case(case, ctx):
-    {"circ": run_circ, "eq": run_eq, "clifford": run_clifford, "reindex": run_reindex}[case["sub"]](case, ctx)
+    {"circ": run_circ, "eq": run_eq, "clifford": run_clifford, "reindex": run_reindex, "gaptrim": run_gaptrim}[case["sub"]](case, ctx)
